@@ -371,6 +371,7 @@ func runC19(c *Ctx) {
 
 	checkToolOutputRules(c, p)
 	checkEveryFileMatchedAndPrinted(c, p)
+	checkTimeoutAndLibraryState(c, p)
 
 	// ---- R19.10 what is recorded for a file is built from that file's matches -----------
 	// every value appended to the result list is a LicenseType built by a composite literal of this call (whose fields
@@ -2043,4 +2044,201 @@ func checkEveryFileMatchedAndPrinted(c *Ctx, p *core.Prog) {
 		}
 	}
 	c.R.RequireMin("R19.16", "loops that print the results", nP, 1)
+}
+
+// checkTimeoutAndLibraryState: R19.18, R19.19.
+func checkTimeoutAndLibraryState(c *Ctx, p *core.Prog) {
+	var fns []*ssa.Function
+	for _, pk := range []string{cliPkg, backendPkg, resultsPkg} {
+		fns = append(fns, pkgFuncs(p, pk)...)
+	}
+	// R19.18: a run that is cut short is a failed run. Where a function of the tool waits on `<-ctx.Done()` in a select, the
+	// branch taken when the context expires hands ctx.Err() to its caller (in the returned error / error list): otherwise the
+	// tool prints the files classified so far and exits 0 although it did not look at every file.
+	nSel := 0
+	for _, fn := range fns {
+		for _, b := range fn.Blocks {
+			for _, in := range b.Instrs {
+				sel, ok := in.(*ssa.Select)
+				if !ok {
+					continue
+				}
+				for k, st := range sel.States {
+					call, isCall := st.Chan.(*ssa.Call)
+					if !isCall || !call.Call.IsInvoke() || call.Call.Method.Name() != "Done" || !strings.HasSuffix(call.Call.Value.Type().String(), "context.Context") {
+						continue
+					}
+					nSel++
+					ctxV := call.Call.Value
+					// the block of this case
+					var body *ssa.BasicBlock
+					for _, r := range *sel.Referrers() {
+						ex, isEx := r.(*ssa.Extract)
+						if !isEx || ex.Index != 0 {
+							continue
+						}
+						for _, r2 := range *ex.Referrers() {
+							bo, isBo := r2.(*ssa.BinOp)
+							if !isBo || bo.Op != token.EQL {
+								continue
+							}
+							if kk, isK := core.ConstInt(bo.Y); !isK || int(kk) != k {
+								continue
+							}
+							for _, r3 := range *bo.Referrers() {
+								if ifi, isIf := r3.(*ssa.If); isIf {
+									body = ifi.Block().Succs[0]
+								}
+							}
+						}
+					}
+					key := core.ShortFn(fn) + ": the branch taken when the context expires reports ctx.Err() to the caller"
+					if body == nil {
+						c.R.Undecided("R19.18", key, p.Pos(sel.Pos()), "the branch of the select case could not be located")
+						continue
+					}
+					// values derived from ctx.Err() inside the branch
+					derived := map[ssa.Value]bool{}
+					for _, bb := range fn.Blocks {
+						if !body.Dominates(bb) {
+							continue
+						}
+						for _, i2 := range bb.Instrs {
+							if ec, ok := i2.(*ssa.Call); ok && ec.Call.IsInvoke() && ec.Call.Method.Name() == "Err" && ec.Call.Value == ctxV {
+								derived[ec] = true
+							}
+						}
+					}
+					for changed := true; changed; {
+						changed = false
+						mark := func(v ssa.Value) {
+							if v != nil && !derived[v] {
+								derived[v] = true
+								changed = true
+							}
+						}
+						for _, bb := range fn.Blocks {
+							for _, i2 := range bb.Instrs {
+								switch x := i2.(type) {
+								case *ssa.Store:
+									if derived[x.Val] {
+										switch a := x.Addr.(type) {
+										case *ssa.Alloc:
+											mark(a)
+										case *ssa.IndexAddr:
+											mark(a.X)
+										}
+									}
+								case *ssa.UnOp:
+									if x.Op == token.MUL && derived[x.X] && body.Dominates(bb) {
+										mark(x)
+									}
+								case *ssa.Slice:
+									if derived[x.X] {
+										mark(x)
+									}
+								case *ssa.MakeInterface:
+									if derived[x.X] {
+										mark(x)
+									}
+								case *ssa.ChangeInterface:
+									if derived[x.X] {
+										mark(x)
+									}
+								case *ssa.Phi:
+									for _, e := range x.Edges {
+										if derived[e] {
+											mark(x)
+										}
+									}
+								case *ssa.Call:
+									if bi, ok := x.Call.Value.(*ssa.Builtin); ok && bi.Name() == "append" {
+										for _, a := range x.Call.Args {
+											if derived[a] {
+												mark(x)
+											}
+										}
+									} else if g := x.Call.StaticCallee(); g != nil && (g.Name() == "Errorf" || g.Name() == "Wrap" || g.Name() == "Join") {
+										for _, a := range x.Call.Args {
+											if derived[a] {
+												mark(x)
+											}
+										}
+									}
+								}
+							}
+						}
+					}
+					// every return that the branch reaches returns such a value
+					bad := ""
+					nRet := 0
+					for _, bb := range fn.Blocks {
+						ret, isRet := bb.Instrs[len(bb.Instrs)-1].(*ssa.Return)
+						if !isRet || !(bb == body || reaches(body, bb)) {
+							continue
+						}
+						nRet++
+						okRet := false
+						for _, r := range ret.Results {
+							if derived[r] {
+								okRet = true
+							}
+						}
+						if !okRet {
+							bad = p.Pos(ret.Pos())
+						}
+					}
+					c.R.Check(bad == "" && nRet > 0, "R19.18", key, p.Pos(sel.Pos()), fmt.Sprintf("%d return(s) behind the expiry branch, each returns a value built from ctx.Err()", nRet),
+						"the return at "+bad+" that the expiry branch reaches does not hand ctx.Err() to the caller: when -timeout expires the tool carries on as if every file had been classified - it prints what it has and exits 0")
+				}
+			}
+		}
+	}
+	c.R.Count("R19.18:selects on ctx.Done", nSel)
+	// R19.19: the tool reports what the library finds with the library as it is: no function of the tool writes a
+	// package-level variable of a library package (the corpus loader's, the classifier's). A category left out of the corpus
+	// changes which candidates compete in Match's overlap filter, so the tool prints matches Match does not return.
+	{
+		bad := ""
+		nSt := 0
+		isLib := func(pk string) bool {
+			return strings.HasPrefix(pk, core.V2Mod) && !strings.HasPrefix(pk, cliPkg)
+		}
+		for _, fn := range fns {
+			for _, b := range fn.Blocks {
+				for _, in := range b.Instrs {
+					var target ssa.Value
+					switch x := in.(type) {
+					case *ssa.Store:
+						target = x.Addr
+					case *ssa.MapUpdate:
+						target = x.Map
+					default:
+						continue
+					}
+					nSt++
+					// walk to the root of the address
+					for depth := 0; depth < 8 && target != nil; depth++ {
+						switch a := target.(type) {
+						case *ssa.FieldAddr:
+							target = a.X
+						case *ssa.IndexAddr:
+							target = a.X
+						case *ssa.UnOp:
+							target = a.X
+						case *ssa.Global:
+							if a.Pkg != nil && isLib(a.Pkg.Pkg.Path()) && bad == "" {
+								bad = core.ShortFn(fn) + " writes " + a.Pkg.Pkg.Name() + "." + a.Name() + " at " + p.Pos(in.Pos())
+							}
+							target = nil
+						default:
+							target = nil
+						}
+					}
+				}
+			}
+		}
+		c.R.Check(bad == "", "R19.19", "the tool does not reconfigure the library through package-level variables", cliPkg, fmt.Sprintf("%d stores in the tool's packages, none into a variable of a library package", nSt),
+			bad+": the classifier the tool uses is not the library's default one (a smaller corpus, other settings), so what it prints is not what Match returns for the file")
+	}
 }
